@@ -39,10 +39,21 @@ func (c *Config) CountField(name string, opts ...Option) (int, error) {
 		return len(c.fields.array()) + len(c.fields.dict()), nil
 	}
 
-	if v, ok := c.fields.get(name); ok {
-		return v.Len(makeOptions(opts))
+	// the name is a path like the names given to the getters (PathSep)
+	O := makeOptions(opts)
+	v, err := c.getField(name, -1, O)
+	if err != nil {
+		return -1, err
 	}
-	return -1, raiseMissing(c, name)
+	n, lenErr := v.Len(O)
+	if lenErr != nil {
+		if e, ok := lenErr.(Error); ok {
+			return -1, e
+		}
+		ctx := v.Context()
+		return -1, raisePathErr(lenErr, v.meta(), "", ctx.path("."))
+	}
+	return n, nil
 }
 
 // Bool reads a boolean setting returning an error if the setting has no
